@@ -634,6 +634,58 @@ def rlimit_cases(ctx, replay=None):
     return {"violations": viol, "coverage": {"rlimit_fsize_cases": done}}
 
 
+def nested_cases(ctx, replay=None):
+    """Two writes in progress at once, to sibling paths (same directory, same stem, different extensions; str and pathlib; the
+    `staged_write` helper and two stores): the second is opened, written and closed while the first is still open, then the first
+    goes on and closes - or fails.  Each target must end up holding exactly its own complete value (or, for the failing one,
+    nothing / its previous content), and no staging file may stay behind."""
+    import pathlib
+    from uberjob.stores import BinaryFileStore
+    from uberjob.stores._file_store import staged_write
+    viol, done = [], 0
+    shapes = [(pl, names, fail) for pl in (False, True)
+              for names in (("embeddings.train", "embeddings.test"), ("model.json", "model.pkl"), ("out", "out.bak"))
+              for fail in (False, True)]
+    if replay is not None:
+        shapes = [tuple([replay["nested_case"][0], tuple(replay["nested_case"][1]), replay["nested_case"][2]])]
+    for pl, names, fail in shapes:
+        with sc.scratch_dir("c11n") as d:
+            mk = (lambda n: pathlib.Path(d) / n) if pl else (lambda n: os.path.join(d, n))
+            with open(os.path.join(d, names[0]), "wb") as f:
+                f.write(b"OLD-A")
+            err = None
+            try:
+                with staged_write(mk(names[0]), "wb") as fa:
+                    fa.write(b"A" * 1000)
+                    BinaryFileStore(mk(names[1])).write(b"B" * 700)
+                    fa.write(b"a" * 10)
+                    if fail:
+                        raise UserError("the outer write fails after the inner one completed")
+            except UserError:
+                pass
+            except Exception as e:      # noqa: BLE001
+                err = e
+            done += 1
+            got_a = open(os.path.join(d, names[0]), "rb").read() if os.path.exists(os.path.join(d, names[0])) else None
+            got_b = open(os.path.join(d, names[1]), "rb").read() if os.path.exists(os.path.join(d, names[1])) else None
+            want_a = b"OLD-A" if fail else b"A" * 1000 + b"a" * 10
+            left = sorted(set(os.listdir(d)) - set(names))
+            what = None
+            if err is not None:
+                what = f"raised {type(err).__name__}: {str(err)[:80]}"
+            elif got_a != want_a or got_b != b"B" * 700:
+                what = (f"{names[0]} holds {show_bytes(got_a) if got_a is not None else None} (expected {show_bytes(want_a)}), "
+                        f"{names[1]} holds {show_bytes(got_b) if got_b is not None else None} (expected {show_bytes(b'B' * 700)})")
+            elif left:
+                what = f"left behind: {left}"
+            if what:
+                viol.append({"property": "C11", "what": f"a write to {names[1]!r} while a write to its sibling {names[0]!r} was in progress "
+                             f"({'pathlib' if pl else 'str'} paths{', the outer write then fails' if fail else ''}): {what}",
+                             "replay_fn": "nested", "nested_case": [pl, list(names), fail]})
+                break
+    return {"violations": viol, "coverage": {"nested_sibling_writes": done}}
+
+
 def explore(ctx, n_cases=None, seed_shift=0):
     rng = random.Random(ctx.seed * 7919 + 11 + seed_shift)
     quick = ctx.tier == "quick"
@@ -675,6 +727,10 @@ def explore(ctx, n_cases=None, seed_shift=0):
             rl = rlimit_cases(ctx)
             violations += rl["violations"]
             cov.update(rl["coverage"])
+        if not violations:
+            ns = nested_cases(ctx)
+            violations += ns["violations"]
+            cov.update(ns["coverage"])
     finally:
         sc.cleanup_scratch()
     return {"violations": violations, "disagreements": disagreements[:3], "coverage": cov}
@@ -748,6 +804,12 @@ def replay(ctx, payload):
     if w.get("replay_fn") == "rlimit":
         try:
             r = rlimit_cases(ctx, replay=w)
+        finally:
+            sc.cleanup_scratch()
+        return r["violations"][0]["what"] if r["violations"] else None
+    if w.get("replay_fn") == "nested":
+        try:
+            r = nested_cases(ctx, replay=w)
         finally:
             sc.cleanup_scratch()
         return r["violations"][0]["what"] if r["violations"] else None
